@@ -6,7 +6,7 @@
    A str replacement goes through fmtstr(); the scope hypothesis [operand_plain]
    says that it does not contain ESC[ (parsing is C05/C17). *)
 From Curtsies Require Import Model.Base Spec.ListOps Model.Slice Model.Splice Proofs.Slice Proofs.Splice.
-Close Scope N_scope.
+Local Close Scope N_scope.
 Local Open Scope Z_scope.
 
 Theorem C09_splice_cells :
@@ -88,4 +88,9 @@ Example C09_setslice_nonvacuous :
   res_map text (setslice_with_length ex_f 1%Z 3%Z (OStr [90]) 5%Z) = Ok [97; 90; 32; 100; 101] /\
   setslice_with_length ex_f 1%Z 3%Z (OStr [90;90;90]) 5%Z = Raise AssertionError /\
   setslice_with_length ex_f 4%Z 5%Z (OStr [90;90]) 5%Z = Raise ValueError.
+Proof. vm_compute. repeat split; reflexivity. Qed.
+
+Example C09_append_nonvacuous :
+  operand_plain (OStr [90]) = true /\ text (append ex_f (OStr [90])) = [97; 98; 99; 100; 101; 90] /\
+  text (splice ex_f ex_new 9%Z (Some 11%Z)) = [97; 98; 99; 100; 101; 88; 89].
 Proof. vm_compute. repeat split; reflexivity. Qed.
